@@ -13,8 +13,8 @@ SELECT = {
     'C03': lambda f: f['oracle'] in ('H1', 'H2', 'C03.model', 'C03.stored'),
     'C04': lambda f: f['oracle'] in ('C04.model', 'C04.history'),
     'C12': lambda f: f['oracle'] in ('C12.type', 'C12.stored', 'H1'),
-    'C05': lambda f: f['oracle'] in ('C05.model',),
-    'C06': lambda f: f['oracle'] in ('H3a', 'H4', 'H5b', 'H5n', 'H5c', 'T0', 'T1', 'T2', 'C06.lost'),
+    'C05': lambda f: f['oracle'] in ('C05.model', 'P1'),
+    'C06': lambda f: f['oracle'] in ('H3a', 'H4', 'H5b', 'H5n', 'H5c', 'T0', 'T1', 'T2', 'C06.lost', 'P1'),
     'C13': lambda f: f['oracle'] in ('H3a', 'H3b', 'H3c', 'H3d', 'H3e'),
     'C11': lambda f: f['oracle'] in ('H6',),
 }
@@ -50,11 +50,23 @@ def make_case(seed, prop, flip_p=None):
             over[q] = 'no' if shipped.default_text(q, spec, pdict) == 'yes' else 'yes'
             faults.append(f'flip:{q}')
         elif spec['type'] == 'str' and rng.chance(0.05):
-            over[q] = rng.pick(['O(Brien', 'a\\b', 'Jo "J" K', 'x' * 40, 'Dr. A. B. C'])
+            over[q] = rng.pick(['O(Brien', 'a\\b', 'Jo "J" K', 'x' * 40, 'Dr. A. B. C', 'Where St #12', '# 12', 'Unit ;3'])
     case = {'persona': pdict, 'sched': [None, 0] if rng.chance(0.15) else [rng.randrange(1 << 32), rng.pick([0, 0, 1, 3])],
             'layout': None if rng.chance(0.5) else rng.randrange(1 << 32), 'prompt': True, 'refuse_at': None}
     p_file = rng.pick([0.0, 0.3, 0.7, 1.0])
     case['file'] = [q for q in D if rng.chance(p_file)]
+    if rng.chance(0.12):
+        # stray sections: inputs of an instanced form also given under the un-instanced section name (nobody reads those)
+        for q in D:
+            form, inst, b = shipped.split_name(q)
+            if inst is not None and rng.chance(0.5):
+                stray = f'{form}.{b}'
+                spec = persona.spec(stray)
+                if spec is not None and stray not in case['file']:
+                    if spec['type'] == 'float':
+                        over[stray] = rng.pick(AMOUNTS)
+                    case['file'].append(stray)
+        faults.append('stray-sections')
     if prop in ('C01', 'C05', 'C06') and rng.chance(0.35):
         k = rng.random()
         if k < 0.4 and D:
@@ -208,7 +220,7 @@ def evaluate_group(case, acc=None):
     for tag, run in runs:
         r1 = shipped.model_for(case['persona'], run)
         for f in shipped.judge(case['persona'], run, r1):
-            if f['oracle'] == 'C05.model':
+            if f['oracle'] in ('C05.model', 'P1'):
                 fs.append(dict(f, property='C05', msg=f'variant {tag}: ' + f['msg']))
         if (run.outcome == 'abort') != (r1.verdict == 'abort'):
             fs.append(F('C05', 'C05.abort', 'abort-ness', f'variant {tag}: run {run.outcome} {run.exc}, model {r1.verdict} {r1.summary()["aborts"]}'))
